@@ -827,6 +827,10 @@ pub fn check(cfg: &Cfg) -> Result<i32, Harness> {
                 tally.add("worker_crashed");
                 violations.push(crash_violation(cfg, i as u64, &format!("crashed the process ({how}: stack or memory exhausted)")));
             }
+            crate::par::CaseEnd::Skipped => {
+                evaluations -= 1;
+                tally.add("skipped_after_abort");
+            }
             crate::par::CaseEnd::Hung => {
                 tally.add("worker_hung");
                 violations.push(crash_violation(cfg, i as u64, "did not come back within 45 s"));
